@@ -24,6 +24,14 @@ CHECKS = {
             "TLA+ model checking (FbDelivered, Terminates) + spec->code replay + TLC trace validation", "§4 C08"),
     "C09": ("hgv_engine", "The same TLC-predicted program runs with a sub-range inlined, nested and doubly nested; streams are compared pairwise and with Dataflow.tla; EngineTrace validates child-clock rules (child time >= parent time, child cycle inside its node's turn) and any engine rule broken only by the nested presentation is a violation.",
             "Dataflow.tla prediction + differential replay (inline / nested / depth 2) + TLC trace validation", "§4 C09"),
+    "C10": ("hgv_engine", "For random key histories (add / update / remove / re-add; 3 keys, thorough also 20 keys) and random mapped functions (stateful, self-scheduling, key-consuming, with a broadcast argument, throwing with per-key capture) TLC computes with Dataflow.tla what the function produces run alone with fresh state on every presence interval of every key; map_'s per-tick output delta (modified / added / removed keys and the running value) on the compiled tree must equal the composition of these, and per-key error ticks must appear under the failing key only.",
+            "Dataflow.tla predictions by TLC (function run alone per key interval) + tick-by-tick comparison of map_ on the compiled tree", "§4 C10"),
+    "C11": ("hgv_engine", "Reduce.tla states the required result after every cycle (invalid / zero / combine(x, zero) / fold without zero) and TLC checks on every history that the fold is independent of element order and never involves the zero with two or more live elements; random histories (growth through power-of-two capacities, shrink to empty, regrow; 2-20 keys; add_/min_/max_, sub-graph and node combiners; identity and non-identity zeros) run on the compiled tree and the result read in every cycle must equal the specification.",
+            "Reduce.tla (level A fold) evaluated by TLC per history + cycle-by-cycle comparison on the compiled tree", "§4 C11"),
+    "C12": ("hgv_engine", "For random switch_ programs (2-3 branches, optional default, reload on/off, one or two held inputs, key histories with flips / repeats / returns / unmatched keys) TLC computes with Dataflow.tla what each selected branch produces alone, with fresh state, on the held inputs sampled at selection time then live, for every selection interval; the switch_ output stream on the compiled tree must be exactly their concatenation, a de-selected branch instance must never be evaluated again, and an unmatched key without default must fail the run.",
+            "Dataflow.tla predictions by TLC (branch run alone per selection interval) + stream comparison on the compiled tree", "§4 C12"),
+    "C13": ("hgv_engine", "Dataflow.tla models a reference (if_then_else result, also a reference to a reference) as 'readers observe the referenced target': a tick with the target's current value on a retarget to a valid target, every tick of the referenced target, nothing on a republished reference or from unselected targets, validity follows the target; TLC predicts the streams of all consumers below the reference for random programs, which are run flat and with the reference crossing nested-graph boundaries (depth 1-2) on the compiled tree and compared stream by stream.",
+            "TLA+ model (Dataflow.tla reference semantics) checked by TLC per program + spec->code replay, flat and across nested boundaries", "§4 C13"),
     "C14": ("hgv_engine", "Graph shape x fault set (every node x phase in start/eval/stop x occurrence, singles and pairs) x clean-up-on-error on/off are enumerated; the lifecycle trace (observer + user-code hooks) of each run on the compiled tree is validated by the TLA+ trace specification LifeTrace with TLC (start order, reverse stop order, exactly-once stop, no evaluation outside started, rollback of a failed start, nothing left started at return / release, first error reaches the caller naming node and phase).",
             "fault enumeration replayed on the compiled tree + TLC trace validation against LifeTrace.tla", "§4 C14"),
     "C15": ("hgv_engine", "Dataflow.tla specifies captured errors (the thrower writes nothing, one error tick carrying the message, nothing else changes) and is model-checked per program; chains with a thrower are run with per-node capture, try_except around a sub-graph (thrower at child index 0/1/2) and capture inside a nested child; all streams and error ticks must equal the specification and EngineTrace validates C15 clauses per event.",
